@@ -6,7 +6,9 @@ from gen import gen_layout, gen_scalar, gen_gated, gen_entities
 from layoutfam import matrix, run_geo, user_entities, POLE_PROTO
 
 MODULE = "Proofs.Props.C18"
-THEOREMS = ["Facto.grid_covers_1d", "Facto.grid_covers", "Facto.nearest_neighbour_not_connected"]
+THEOREMS = ["Facto.grid_covers_1d", "Facto.grid_covers", "Facto.nearest_neighbour_not_connected",
+            "Facto.powered_sound", "Facto.single_grid_sound", "Facto.copper_root_eq_conn", "Facto.copperEdge_is_wire",
+            "Facto.geoCheck_sound", "Facto.GeoExample.poles_connected"]
 
 
 def run(res, tier):
